@@ -482,9 +482,7 @@ func enginePlan(ctx *core.Ctx) []Scenario {
 		for ti, typ := range types {
 			snd := sendersOf(scProbe, typ)
 			expensive := sz.proto == pump.EcKeygen || sz.proto == pump.EcReshare
-			if !ctx.Thorough() && expensive && ti%len(types) != int(ctx.Seed+1)%len(types) && ti != 0 {
-				continue
-			}
+			_ = expensive // every type is held back once also in the quick tier (a message overtaken by two rounds needs a particular type)
 			strats = append(strats, fmt.Sprintf("holdtype:%s:%d", typ, snd[(ti+int(ctx.Seed))%len(snd)]))
 			if ctx.Thorough() && len(snd) > 1 {
 				strats = append(strats, fmt.Sprintf("holdtype:%s:%d", typ, snd[(ti+int(ctx.Seed)+1)%len(snd)]))
